@@ -55,7 +55,7 @@ class Rec:
         self.db = db
         costs = [{'name': 'f_%d' % (j + 1), 'criteria': self.criteria[j]} for j in range(m)]
         self.problem = absx.make_problem(dim, bounds=self.bounds, costs=costs, evaluate=self._evaluate,
-                                         constraints=self._constraints if constrained else None)
+                                         constraints=self._constraints)
         if db:
             from artap.datastore import SqliteDataStore
             real = SqliteDataStore(self.problem, database_name=db)
@@ -93,6 +93,18 @@ class Rec:
 
     # ---- the user-facing hooks -------------------------------------------------------------------------
     def _constraints(self, x):
+        # Job.evaluate calls this user hook at the start of every attempt: a third observation / gate point ("begin")
+        if self.gate is not None and getattr(self, "gate_begin", False):
+            k = 0
+            t = tuple(float(v) for v in x)
+            for i, ind in enumerate(self.inds):
+                if tuple(float(v) for v in ind.vector) == t:
+                    k = i + 1
+                    break
+            if k:
+                self.gate("begin", k)
+        if not self.constrained:
+            return []
         return [float(v) for v in self.g_of(x)]
 
     def _evaluate(self, individual):
